@@ -160,9 +160,10 @@ macro "mime_body" : tactic => `(tactic| (
         mime_lang_cases pfx lang
       · simp only [Bool.not_false, if_true, Bool.not_true, Bool.false_eq_true, if_false]
         by_cases hp : Charset.isPortable env.tbl true (toName enc) = true
-        · simp only [hp, if_true]
+        · simp only [hp, Bool.not_true, Bool.not_false, Bool.false_eq_true, if_true, if_false]
           mime_lang_cases pfx lang
-        · simp only [hp, if_false]
+        · have hp' : Charset.isPortable env.tbl true (toName enc) = false := by simpa using hp
+          simp only [hp', Bool.not_true, Bool.not_false, Bool.false_eq_true, if_true, if_false]
           cases hpr : Charset.propose env.tbl env.c2e env.lookup (toName enc) with
           | error u => cases u; simp only [Bool.false_eq_true, if_false, erase_error]
           | ok po =>
